@@ -1575,6 +1575,214 @@ fn first_cells<const D: usize>(v: &mut Dyn<D>, k: usize, via: &str, write: bool)
     format!("cells={}", cells.join(" "))
 }
 
+/// Whole-view consumers without a closure that could give up (every flavour of iterator of
+/// `TensorView` and `TensorAccess`, `first`, `elementwise*` with a plain tensor on either side,
+/// `==` in every direction, the results of `map` / `map_with_index`): what they see / produce, in
+/// their own order, against the logical content (the plain getter at the row-major indexes).
+/// The answer lists the first `k` cells.
+fn whole_cells<const D: usize>(v: &mut Dyn<D>, k: usize, via: &str) -> String {
+    use std::cell::RefCell;
+    let shape = v.view_shape();
+    let lens: Vec<usize> = shape.iter().map(|d| d.1).collect();
+    let n: usize = lens.iter().product();
+    if n > 4096 {
+        return "skip".into();
+    }
+    let order = all_indexes(&lens);
+    // (index given by the consumer, value, cell located from a reference)
+    type Seen<const D: usize> = Vec<(Option<[usize; D]>, u64, Option<u64>)>;
+    let r: Result<Result<Seen<D>, String>, PanicKind> = catch(|| {
+        let mut seen: Seen<D> = vec![];
+        // a plain tensor of the same shape holding the row-major positions
+        let positions = || Tensor::from(shape, (0..n as u64).collect::<Vec<u64>>());
+        let content = |v: &Dyn<D>| -> Vec<u64> { order.iter().map(|i| v.get_reference(crate::util::to_array(i)).map_or(MISPLACED, |x| *x)).collect() };
+        match via {
+            "iter_reference" => {
+                for x in TensorView::from(&*v).iter_reference() {
+                    seen.push((None, *x, Some(locate(x))));
+                }
+            }
+            "iter_with_index" => {
+                for (i, x) in TensorView::from(&*v).iter().with_index() {
+                    seen.push((Some(i), x, None));
+                }
+            }
+            "iter_reference_with_index" => {
+                for (i, x) in TensorView::from(&*v).iter_reference().with_index() {
+                    seen.push((Some(i), *x, Some(locate(x))));
+                }
+            }
+            "iter_reference_mut_with_index" => {
+                for (i, x) in TensorView::from(&mut *v).iter_reference_mut().with_index() {
+                    seen.push((Some(i), *x, Some(locate(x))));
+                }
+            }
+            "access_iter" => {
+                for x in TensorAccess::from_source_order(&*v).iter() {
+                    seen.push((None, x, None));
+                }
+            }
+            "access_iter_reference" => {
+                for (i, x) in TensorAccess::from_source_order(&*v).iter_reference().with_index() {
+                    seen.push((Some(i), *x, Some(locate(x))));
+                }
+            }
+            "access_iter_reference_mut" => {
+                for x in TensorAccess::from_source_order(&mut *v).iter_reference_mut() {
+                    seen.push((None, *x, Some(locate(x))));
+                }
+            }
+            "first_value" => {
+                seen.push((None, TensorView::from(&*v).first(), None));
+            }
+            "map_result" | "map_with_index_result" => {
+                let t = if via == "map_result" { TensorView::from(&*v).map(|x| x) } else { TensorView::from(&*v).map_with_index(|_, x| x) };
+                if t.shape() != shape {
+                    return Err("result-shape-differs".to_string());
+                }
+                for x in t.iter() {
+                    seen.push((None, x, None));
+                }
+            }
+            "elementwise_left" | "elementwise_right" | "elementwise_reference_left" | "elementwise_reference_right" | "elementwise_with_index_left" | "elementwise_reference_with_index_right" => {
+                let plain = positions();
+                let calls: RefCell<Seen<D>> = RefCell::new(vec![]);
+                // the plain side must arrive in step: position p at call p
+                let note = |i: Option<[usize; D]>, x: u64, p: u64, cell: Option<u64>| -> u64 {
+                    let at = calls.borrow().len() as u64;
+                    calls.borrow_mut().push((i, if p == at { x } else { MISPLACED }, cell));
+                    x
+                };
+                let view = TensorView::from(&*v);
+                let t = match via {
+                    "elementwise_left" => view.elementwise(&plain, |x, p| note(None, x, p, None)),
+                    "elementwise_right" => plain.elementwise(&view, |p, x| note(None, x, p, None)),
+                    "elementwise_reference_left" => view.elementwise_reference(&plain, |x, p| note(None, *x, *p, Some(locate(x)))),
+                    "elementwise_reference_right" => plain.elementwise_reference(&view, |p, x| note(None, *x, *p, Some(locate(x)))),
+                    "elementwise_with_index_left" => view.elementwise_with_index(&plain, |i, x, p| note(Some(i), x, p, None)),
+                    _ => plain.elementwise_reference_with_index(&view, |i, p, x| note(Some(i), *x, *p, Some(locate(x)))),
+                };
+                // the result holds what the closure returned, in the same order
+                let calls = calls.into_inner();
+                let result: Vec<u64> = t.iter().collect();
+                if t.shape() != shape || result.len() != calls.len() || result.iter().zip(calls.iter()).any(|(r, c)| *r != c.1 && c.1 != MISPLACED) {
+                    return Err("result-differs".to_string());
+                }
+                seen = calls;
+            }
+            "eq_left" | "eq_right" | "eq_view" => {
+                let data = content(&*v);
+                let same = Tensor::from(shape, data.clone());
+                let holds = |t: &Tensor<u64, D>| -> bool {
+                    match via {
+                        "eq_left" => TensorView::from(&*v) == *t,
+                        "eq_right" => *t == TensorView::from(&*v),
+                        _ => TensorView::from(&*v) == TensorView::from(t),
+                    }
+                };
+                if !holds(&same) {
+                    return Err("eq-refuses-equal-content".to_string());
+                }
+                let step = (n / 24).max(1);
+                for p in (0..n).step_by(step).chain(std::iter::once(n - 1)) {
+                    let mut other = data.clone();
+                    other[p] = other[p].wrapping_add(1);
+                    if holds(&Tensor::from(shape, other)) {
+                        return Err(format!("eq-misses-difference-at-{}", p));
+                    }
+                }
+                if D >= 1 {
+                    let mut renamed = shape;
+                    renamed[D - 1].0 = intern("not-a-name-of-the-view");
+                    if holds(&Tensor::from(renamed, data.clone())) {
+                        return Err("eq-ignores-names".to_string());
+                    }
+                }
+                seen = data.iter().map(|x| (None, *x, None)).collect();
+            }
+            _ => return Err("bad-op".to_string()),
+        }
+        Ok(seen)
+    });
+    let seen = match r {
+        Ok(Ok(seen)) => seen,
+        Ok(Err(msg)) => return msg,
+        Err(kind) => return panic_str(kind),
+    };
+    let expected = if via == "first_value" { 1.min(n) } else { n };
+    if seen.len() != expected {
+        return format!("elements={}", seen.len());
+    }
+    let cells: Vec<String> = seen
+        .iter()
+        .enumerate()
+        .take(k)
+        .map(|(pos, (i, x, cell))| {
+            let idx: [usize; D] = match i {
+                Some(i) => *i,
+                None => crate::util::to_array(&order[pos]),
+            };
+            match v.get_reference(idx) {
+                Some(r) if *r == *x && cell.map_or(true, |c| c == locate(r)) => show_cell_opt(Some(locate(r))),
+                _ => show_cell_opt(Some(MISPLACED)),
+            }
+        })
+        .collect();
+    format!("cells={}", cells.join(" "))
+}
+
+const WHOLE_VIAS: [&str; 19] = [
+    "iter_reference", "iter_with_index", "iter_reference_with_index", "iter_reference_mut_with_index", "access_iter",
+    "access_iter_reference", "access_iter_reference_mut", "first_value", "map_result", "map_with_index_result",
+    "elementwise_left", "elementwise_right", "elementwise_reference_left", "elementwise_reference_right",
+    "elementwise_with_index_left", "elementwise_reference_with_index_right", "eq_left", "eq_right", "eq_view",
+];
+
+/// `TensorView::reorder` / `transpose` (copies into a new tensor) against the adaptor they
+/// materialise (`TensorAccess` / `TensorTranspose` over the view)
+fn copy_op<const D: usize>(v: &Dyn<D>, kind: &str, names: &[&'static str]) -> String {
+    if names.len() != D {
+        return "skip".into();
+    }
+    let n: usize = v.view_shape().iter().map(|d| d.1).product();
+    if n > 4096 {
+        return "skip".into();
+    }
+    let arr: [&'static str; D] = names_array(names);
+    let r = catch(|| {
+        let view = TensorView::from(v);
+        let copy: Tensor<u64, D> = if kind == "reorder" { view.reorder(arr) } else { view.transpose(arr) };
+        let describe_against = |adaptor: &dyn TensorRef<u64, D>| -> String {
+            let shape = adaptor.view_shape();
+            if copy.shape() != shape {
+                return format!("shape-differs copy={} adaptor={}", show_shape(&copy.shape()), show_shape(&shape));
+            }
+            let lens: Vec<usize> = shape.iter().map(|d| d.1).collect();
+            let cells: Vec<String> = all_indexes(&lens)
+                .into_iter()
+                .map(|i| {
+                    let idx: [usize; D] = crate::util::to_array(&i);
+                    match (adaptor.get_reference(idx), copy.get_reference(idx)) {
+                        (Some(r), Some(c)) if *r == *c => show_cell_opt(Some(locate(r))),
+                        _ => show_cell_opt(Some(MISPLACED)),
+                    }
+                })
+                .collect();
+            format!("ok shape={} cells={}", show_shape(&shape), cells.join(" "))
+        };
+        if kind == "reorder" {
+            describe_against(&TensorAccess::from(v, arr))
+        } else {
+            describe_against(&TensorTranspose::from(v, arr))
+        }
+    });
+    match r {
+        Ok(s) => s,
+        Err(PanicKind::Explicit) => "reject".into(),
+        Err(k) => panic_str(k),
+    }
+}
+
 fn values_of_display(text: &str, d: usize) -> Vec<u64> {
     let body: String = text.lines().skip(if d == 0 { 1 } else { 2 }).collect::<Vec<_>>().join(" ");
     body.split(|c: char| !c.is_ascii_digit()).filter(|t| !t.is_empty()).map(|t| t.parse::<u64>().unwrap()).collect()
@@ -1958,6 +2166,12 @@ impl Runner {
     /// `first k`: with the mutating forms the closure returns the sentinel, and afterwards the
     /// leaves must show it at exactly the cells the closure was shown before it gave up
     fn first(&mut self, k: usize, via: &str) -> String {
+        if WHOLE_VIAS.contains(&via) {
+            return match self.stack_mut().last_mut() {
+                Some(top) => dv_each!(top, v => whole_cells(v, k, via)),
+                None => "skip".into(),
+            };
+        }
         let write = matches!(via, "" | "map_mut" | "map_mut_with_index" | "iter_reference_mut") && !self.has_owned_copies();
         let ans = match self.stack_mut().last_mut() {
             Some(top) => dv_each!(top, v => first_cells(v, k, via, write)),
@@ -2034,6 +2248,14 @@ impl Runner {
                     Err(_) => return "bad-op".into(),
                 };
                 self.first(k, via)
+            }
+            [op @ ("copy_reorder" | "copy_transpose"), names, ..] => {
+                let kind = &op[5..];
+                let names = parse_names(names);
+                match self.stack_mut().last() {
+                    Some(top) => dv_each!(top, v => copy_op(v, kind, &names)),
+                    None => "skip".into(),
+                }
             }
             ["sources", ..] => self.sources(if via.starts_with("owned") { 2 } else { 1 }),
             ["length_of", name, ..] => {
